@@ -61,7 +61,7 @@ Schema(
 Schema(
     "ReferenceResolver",
     fields={"parser": "obj:TextXModelParser", "model": "any", "pos_crossref_list": "list",
-            "delayed_crossrefs": "list"},
+            "delayed_crossrefs": "list", "_resolved_list_positions": "dict[list]"},
 )
 Schema(
     "RefRulePosition",
@@ -108,6 +108,7 @@ Schema(
         "delayed_crossrefs": "list",
         "_tx_model_params": "obj:ModelParams",
         "_tx_metamodel": "obj:TextXMetaModel",
+        "_tx_parser": "obj:TextXModelParser",
         "_tx_model_repository": "obj:GlobalModelRepository",
     },
 )
